@@ -138,6 +138,11 @@ func replaySystemOne(cfg ReplayConfig, res *core.Result, bh []SysStep, raw json.
 					d.V = d.V.Add(d.V, w.one())
 				case "tlow":
 					d.T = 1
+				case "otherpoly": // equivocation: another polynomial of the same dealer announcing this session's id
+					d = w.AltDeal[st.I].Clone()
+					d.SID = append([]byte(nil), w.SID...)
+				case "othersession": // a valid deal of the dealer's other session
+					d = w.AltDeal[st.I].Clone()
 				}
 				w.Dealer.SetDeal(st.I, d) // a faulty dealer keeps what it sent: its own justification reveals exactly this
 				e, err := w.Dealer.EncryptedDeal(st.I)
@@ -150,6 +155,12 @@ func replaySystemOne(cfg ReplayConfig, res *core.Result, bh []SysStep, raw json.
 				case k == "good" && (err != nil || r == nil || !r.Approved):
 					vio("honest-deal-not-approved", fmt.Sprintf("verifier %d answered an honest deal with approved=%v err=%v", st.I, r != nil && r.Approved, err), nil)
 					return
+				case k == "othersession":
+					if err != nil || r == nil || !r.Approved {
+						note = append(note, "deal of the other session not approved: run not followed further")
+						stop = true
+						return
+					}
 				case k != "good" && err == nil && r != nil && r.Approved:
 					vio("bad-deal-approved", fmt.Sprintf("verifier %d approved a deal of kind %s", st.I, k), nil)
 					return
@@ -221,7 +232,11 @@ func replaySystemOne(cfg ReplayConfig, res *core.Result, bh []SysStep, raw json.
 		for p := 0; p <= n && !stop; p++ {
 			ps := strconv.Itoa(p)
 			if p < n && !has[p] && in.Variant == "rabin" {
-				continue // nil aggregator: nothing to observe but DealCertified() = false
+				// nil aggregator: nothing to observe but DealCertified() = false
+				if boolStr(party(p).DealCertified) == "true" {
+					vio("certified-unsound", fmt.Sprintf("verifier %d reports certified without a recorded deal", p), nil)
+				}
+				continue
 			}
 			got := observe(party(p), "")
 			obsAll[ps] = got
